@@ -74,6 +74,28 @@ Lemma sim_if_push_r {A1 B C} (R : A1 -> C -> Prop) m1 (c : bool) (m n : IM B) (g
   sim R m1 (if c then ibind m g else ibind n g) -> sim R m1 (ibind (if c then m else n) g).
 Proof. destruct c; auto. Qed.
 
+(* pointwise step through a common first computation *)
+Lemma bind_step {A B} (m : IM A) (f g : A -> IM B) i :
+  (forall a i', m i = Ok (a, i') -> f a i' = g a i') -> ibind m f i = ibind m g i.
+Proof. intros H. unfold ibind. destruct (m i) as [[a i']|c|]; auto. Qed.
+
+(* the second computation maps its result *)
+Lemma sim_map_r {A1 A2 B} (R0 : A1 -> A2 -> Prop) (R : A1 -> B -> Prop) m1 m2 (G : A2 -> B) :
+  sim R0 m1 m2 -> (forall x y, R0 x y -> R x (G y)) -> sim R m1 (ibind m2 (fun y => iret (G y))).
+Proof.
+  intros H HG i Hi. specialize (H i Hi). unfold ibind, iret.
+  destruct (m1 i) as [[a1 i1]|c1|], (m2 i) as [[a2 i2]|c2|]; auto.
+  destruct H as (H1 & H2 & H3). auto.
+Qed.
+
+Lemma sim_ret_bind_r {A1 B C} (R : A1 -> C -> Prop) m1 (a : B) (g : B -> IM C) :
+  sim R m1 (g a) -> sim R m1 (ibind (iret a) g).
+Proof. intros H i Hi. exact (H i Hi). Qed.
+
+Lemma sim_if_eqn {A1 A2} (R : A1 -> A2 -> Prop) (c : bool) m1 n1 m2 n2 :
+  (c = true -> sim R m1 m2) -> (c = false -> sim R n1 n2) -> sim R (if c then m1 else n1) (if c then m2 else n2).
+Proof. destruct c; auto. Qed.
+
 (* ---------- the primitives ---------- *)
 
 Lemma nth_byte_ok bs k : bytes_ok bs -> byte_ok (nth k bs 0).
@@ -141,3 +163,12 @@ Ltac nth_lit :=
   repeat match goal with
   | |- context [Z.to_nat ?k] => let n := eval compute in (Z.to_nat k) in change (Z.to_nat k) with n
   end; cbn [nth].
+
+(* instantiate the relation of a block from the value its then-branch returns *)
+Ltac inst_R :=
+  lazymatch goal with
+  | |- ?R ?x ?y =>
+      let f := eval pattern x in y in
+      lazymatch f with ?F _ => unify R (fun u v => v = F u) end
+  end; cbv beta; reflexivity.
+
